@@ -70,6 +70,14 @@ CHECKS["C07"] = (
     "DESIGN.md section 5 C07",
 )
 
+CHECKS["C16"] = (
+    "exploration",
+    "runtime totality/classification/span monitor on the real reader: every outcome must be Lisp-data forms or a located SyntaxError (per-input alarm for termination); texts with status known by construction (token-boundary prefixes of generated valid programs, injected malformations) and an independent bracket/quote scanner decide EOF-vs-syntax classification; span metadata is checked by re-reading the span text",
+    "Held on all strings to length 4 (thorough 5) over a 24-character reader alphabet and to length 6 (thorough 7) over the 8 delimiter characters (exhaustive), ~2000 generated programs with LF/CRLF/CR and multi-byte characters with all owed-form prefixes, string cuts, malformations and single-character edits, and the bundled .lpy sources with line-ending rewrites, span checks and random edits. Exploration.",
+    "Trusted: the harness' scanner (abstains on character literals, dispatch forms and metadata), its offset map for LF/CRLF/CR, and printed-form equality for span re-reading; syntax-quoted top-level forms are outside the span property; user data readers are not generated.",
+    "DESIGN.md section 5 C16",
+)
+
 NOT_BUILT ="check not built yet in this session (design in DESIGN.md section 5); not claimed until its monitor exists and is quiet on the unchanged tree"
 
 
